@@ -171,7 +171,10 @@ def opaque_markers(v: Any, acc: set, seen: Optional[set] = None, depth: int = 0)
             # (also through method chains on such a value: datetime.now().astimezone().tzinfo)
             while isinstance(x, tuple) and x[:1] == ("app",) and isinstance(x[1], str) and x[1].startswith(".") and len(x) > 2:
                 x = x[2]
-            if not _time_valued(x):
+            env_obj = isinstance(x, tuple) and len(x) == 3 and x[0] == "sym" and isinstance(x[2], tuple) and x[2][:1] == ("extobj",)
+            # (a method of an environment object - the event loop, a transport, a stream - taken as a value is a known
+            #  thing, not an unknown of the analysis: calling it is an event like any other call on that object)
+            if not _time_valued(x) and not env_obj:
                 acc.add("EXTMETH:" + v[2])
         for x in v:
             if isinstance(x, (tuple, Lin, list)):
